@@ -140,6 +140,12 @@ func hdrRun(args []string) error {
 						n, rerr := zr.Read(buf)
 						sz := zr.Size()
 						rcls := errClass(rerr)
+						if rcls == "hc" || rcls == "bd" {
+							// a caller who asks again is told the same thing (the error is its own, distinct one on every call)
+							if _, again := zr.Read(buf); errClass(again) != rcls {
+								rcls = rcls + "-then-" + errClass(again)
+							}
+						}
 						rd = rec{"n": n, "err": rcls, "size": sz}
 						switch {
 						case accept:
